@@ -673,10 +673,10 @@ class C04(Spec):
         bit8 = bool(case['meta']['mode'] & 8)
         for k in range(3, len(a)):
             src = case['calls'][k]['src']
-            if bit8 and ('{' in src or '{' in case['calls'][k - 1]['src']):
-                # macros may legitimately change under bit 8; a changed macro invoked by a probe may in turn leave
-                # Block Attributes pending on the very next block, i.e. on the following probe
-                continue
+            if bit8 and '{' in src:
+                # macros may legitimately change under bit 8; a changed macro invoked by a probe may in turn leave Block
+                # Attributes pending, which reach the next block that is not skipped -- possibly several probes later
+                break
             if a[k]['html'] != b[k]['html']:
                 return ('C04/later-document-differs', 'probe %r renders %r after the untrusted document, %r without it'
                         % (src, a[k]['html'][:120], b[k]['html'][:120]))
